@@ -336,6 +336,42 @@ def r11_4(ctx, rep):
                "`if c1 then a elseif c2 then b else d` must translate to if_else(c1, a, if_else(c2, b, d)): " + why)
 
 
+@SPEC.rule(
+    "R11.5",
+    "algorithm order in function for-loops: the assignment list built by exitForStatement is iteration-major (outer: "
+    "loop iterations, inner: the statements of the body in source order), because get_function replays the list "
+    "sequentially",
+)
+def r11_5(ctx, rep):
+    R = "R11.5"
+    fn = ctx.func(GEN, "Generator.exitForStatement", R)
+    site = GEN + ":Generator.exitForStatement"
+    found = False
+    for node in ast.walk(fn):
+        if isinstance(node, ast.Call) and is_name(node.func, "Assignment") and len(node.args) == 2 and "res[" in norm(node.args[1]):
+            found = True
+            # collect the enclosing loops, outermost first
+            order = []
+            p = getattr(node, "_parent", None)
+            chain = []
+            while p is not None and p is not fn:
+                if isinstance(p, ast.For):
+                    chain.append(norm(p.iter))
+                if isinstance(p, (ast.ListComp, ast.GeneratorExp)):
+                    chain.extend(reversed([norm(g.iter) for g in p.generators]))
+                p = getattr(p, "_parent", None)
+            order = list(reversed(chain))
+            it = [i for i, x in enumerate(order) if "f.values" in x]
+            st = [i for i, x in enumerate(order) if "variables" in x]
+            ok = bool(it) and bool(st) and it[0] < st[0]
+            rep.ob(R, site, "assignment list order", ok,
+                   "loops around Assignment(...) are nested %s: the outer loop must run over the iterations (f.values) and the inner one "
+                   "over the body's statements; otherwise a statement that reads a variable assigned earlier in the same body sees the "
+                   "value of the last iteration" % order)
+    if not found:
+        raise MechanismMissing(R, "construction of the assignment list not found in exitForStatement")
+
+
 # -- seeded variants ---------------------------------------------------------
 from ._mut import replace_in_func  # noqa: E402
 
@@ -402,3 +438,17 @@ def _m6(mod):
         return False
 
     return mod if replace_in_func(mod, "Generator.exitExpression", edit) else None
+
+
+@SPEC.mutant("for-statement assignments grouped by variable", GEN, "R11.5", "order")
+def _m7(mod):
+    def edit(fn):
+        for n in ast.walk(fn):
+            if isinstance(n, ast.For) and norm(n.iter) == "range(len(f.values))" and n.body and isinstance(n.body[0], ast.For):
+                inner = n.body[0]
+                n.target, inner.target = inner.target, n.target
+                n.iter, inner.iter = inner.iter, n.iter
+                return True
+        return False
+
+    return mod if replace_in_func(mod, "Generator.exitForStatement", edit) else None
